@@ -194,13 +194,18 @@ Definition do_publish (cfg : cl_cfg) (s : cl_state) (call : N) (tit tid qos : N)
 Definition do_call (cfg : cl_cfg) (s : cl_state) (call : N) (a : api) : CR :=
   match a with
   | AConnect => connect_attempt cfg s call 0
-  | ARegister topic => call_simple cfg s call 0 CtNone (fun mid => Register 0 mid topic)
+  (* Register, Subscribe and Unsubscribe refuse an empty topic name (ErrEmptyTopic) *)
+  | ARegister topic =>
+    if len topic =? 0 then (s, ret s call RInvalid) else
+    call_simple cfg s call 0 CtNone (fun mid => Register 0 mid topic)
   | ASubscribe topic qos =>
+    if len topic =? 0 then (s, ret s call RInvalid) else
     if is_short_topic topic
     then call_simple cfg s call 1 CtNone (fun mid => Subscribe false qos TIT_SHORT mid (encode_short topic) [])
     else call_simple cfg s call 1 CtNone (fun mid => Subscribe false qos TIT_STRING mid 0 topic)
   | ASubPre tid qos => call_simple cfg s call 1 CtNone (fun mid => Subscribe false qos TIT_PREDEFINED mid tid [])
   | AUnsub topic =>
+    if len topic =? 0 then (s, ret s call RInvalid) else
     if is_short_topic topic
     then call_simple cfg s call 2 CtNone (fun mid => Unsubscribe TIT_SHORT mid (encode_short topic) [])
     else call_simple cfg s call 2 CtNone (fun mid => Unsubscribe TIT_STRING mid 0 topic)
